@@ -422,3 +422,18 @@ Definition late_validation t a := names_where (fun r => is_api r && negb (vbe_ro
 Definition ext_silent_set (externs : list (positive * string)) : PositiveSet.t :=
   fold_left (fun S p => PositiveSet.add (fst p) S) externs PositiveSet.empty.
 Definition silent_api t (Sil : PositiveSet.t) := names_where (fun r => is_api r && PositiveSet.mem (rid r) Sil) t.
+
+(* ------------------------------------------------------------------------------------------------ for the extracted engine *)
+(* the machine's verdict on an entry point called with valid arguments (empty oracle: no check fails, no conditional
+   event runs) in a given open mode: its result, and whether the file log is non-empty afterwards *)
+Definition model_verdict (t : list frow) (p : PositiveSet.t) (mode : fmode) (r : frow) : res * bool :=
+  let '(x, s, _) := run (rows_of t) (fun i => PositiveSet.mem i p) mode (List.length t) CW (rid r) [] (St [] [] false) in
+  (x, match s_file s with [] => false | _ => true end).
+Definition model_all (t : list frow) (externs : list (positive * string)) :=
+  let p := prim_set externs in
+  map (fun r => (rname r, (model_verdict t p FRead r, model_verdict t p FWrite r, model_verdict t p FModify r)))
+      (filter is_api t).
+Definition silent_names (t : list frow) (externs : list (positive * string)) : list string :=
+  silent_api t (silent_set (fun i => PositiveSet.mem i (ext_silent_set externs)) t).
+Definition bad_getters (pairs : list (string * string)) (g : list grow) : list string :=
+  map grow_name (filter (fun x => negb (getter_ok pairs x)) g).
